@@ -111,6 +111,35 @@ def run(ctx):
     res.constants_checked = pc.parser_constants(ctx, res)
     ds = dialects()
     cmds, exp, tags = [], [], []
+    # the ignore_url_escape_characters switch: while it is on nothing is encoded or decoded; once it is off again the
+    # escaping is back for every character (this block runs FIRST, so that the reserved characters are seen for the
+    # first time while the switch is on)
+    from gffutils import constants
+    from gffutils.feature import Feature, feature_from_line
+    allres = "".join(RESERVED)
+    sw_maps = [{"ID": ["a" + allres[:20] + "b"], "Note": [allres[20:] + "z", "x;y=z,w&v%t"]},
+               {"ID": ["plain"], "Note": ["a b", "c"]}]
+    d0 = pyside.mk_dialect(order=[])
+    try:
+        constants.ignore_url_escape_characters = True
+        for mp in sw_maps:
+            f = Feature(seqid="c", source="s", featuretype="t", start=1, end=2, attributes=copy.deepcopy(mp), dialect=copy.deepcopy(d0))
+            attr_on = str(f).split("\t", 8)[8]
+            cmds.append(pyside.cmd_recon(mp, d0, ie=True)); exp.append("ok " + enc(attr_on)); tags.append(("_reconstruct (switch on)", repr(mp)))
+            res.evaluations += 1
+            if mp is sw_maps[1]:
+                g = feature_from_line(str(f), dialect=copy.deepcopy(d0))
+                if g.attributes._d != mp:
+                    res.oracle_failures.append(("with ignore_url_escape_characters on, a mapping free of reserved characters "
+                                                "does not survive print/parse", {"mapping": mp, "printed": str(f)}))
+    finally:
+        constants.ignore_url_escape_characters = False
+    for mp in sw_maps:
+        why, line = oracle_roundtrip(mp, d0, ["c", "s", "t", "1", "2", ".", "+", "."], [])
+        res.evaluations += 1
+        if why:
+            res.oracle_failures.append((why + " (after ignore_url_escape_characters was switched on and off again)",
+                                        {"mapping": mp, "printed": line}))
     n = 1500 if not ctx.thorough else 20000
     for i in range(n):
         fmtpick = r.choice(["gff3", "gff3", "gtf"])
